@@ -13,7 +13,20 @@ from happysimulator.components.client.retry import DecorrelatedJitter, Exponenti
 from happysimulator.components.server import Server
 
 from hsverif.scenarios import Scenario, scenario
-from hsverif.scenarios._kit import ConstantLatency, Entity, Event, ExponentialLatency, P, Proc, Recorder, ev, make_sim
+from hsverif.scenarios._kit import (
+    FRONT_STAGES,
+    ConstantLatency,
+    Entity,
+    Event,
+    ExponentialLatency,
+    P,
+    Proc,
+    Recorder,
+    Replier,
+    ev,
+    front_stage,
+    make_sim,
+)
 
 
 class VarBackend(Entity):
@@ -55,16 +68,17 @@ def _policy(kind: str, p: P, base: float):
     """Every policy of retry.py, delays from the hostile latency list."""
     if kind == "none":
         return NoRetry()
+    attempts = p.count(0, 3, hi=5)  # 1 = "retry policy that never retries"
     if kind == "fixed":
-        return FixedRetry(max_attempts=3, delay=p.lat(2))
+        return FixedRetry(max_attempts=attempts, delay=p.lat(2))
     if kind == "fixed_zero":
-        return FixedRetry(max_attempts=3, delay=0.0)  # allowed by the constructor (delay >= 0)
+        return FixedRetry(max_attempts=attempts, delay=0.0)  # allowed by the constructor (delay >= 0)
     if kind == "exponential":
         d = p.lat(2)
-        return ExponentialBackoff(max_attempts=4, initial_delay=d, max_delay=d * 3, multiplier=2.0, jitter=p.lat(3))
+        return ExponentialBackoff(max_attempts=attempts + 1, initial_delay=d, max_delay=d * 3, multiplier=2.0, jitter=p.lat(3))
     if kind == "decorrelated":
         d = p.lat(2)
-        return DecorrelatedJitter(max_attempts=4, base_delay=d, max_delay=d * 5)
+        return DecorrelatedJitter(max_attempts=attempts + 1, base_delay=d, max_delay=d * 5)
     raise KeyError(kind)
 
 
@@ -357,3 +371,152 @@ def pooled_client_connection_wait_timeouts(seed, params):
 def pooled_client_decorrelated(seed, params):
     """DecorrelatedJitter retries through a pool in front of a Server."""
     return _pooled(seed, params, "decorrelated", idle_x=2.0, timeout_x=0.75, conn_timeout_x=5.0, server=True)
+
+
+# ----------------------------------------------------------------------
+# composition: clients BEHIND a delaying / queueing stage, in front of different targets
+#
+#   x.v % 5         front stage (server_queue / conveyor / rate_limited / inductor / link)
+#   (x.v // 5) % 3  target: zero-latency Replier / Replier 3x slower than the timeout / Server
+#   (x.v // 15) % 2 timeout = 0.5 x or 3 x the front stage latency
+
+
+def _variant(p: P, seed: int):
+    v = int(p.x("v", seed * 7 + 3))
+    return FRONT_STAGES[v % 5], (v // 5) % 3, (0.5 if (v // 15) % 2 == 0 else 3.0), v
+
+
+def _make_target(kind: int, p: P, timer: float, rec, name: str = "target"):
+    if kind == 0:
+        return Replier(name, 0.0, downstream=rec)
+    if kind == 1:
+        return Replier(name, timer * 3, downstream=rec)
+    return Server(name, concurrency=p.cap(2), service_time=ConstantLatency(p.lat(1)), queue_capacity=8, downstream=rec)
+
+
+def _composed_client(seed, params, kind: str, pooled: bool):
+    p = P(params, seed)
+    fk, tk, scale, v = _variant(p, seed)
+    timeout = p.lat(0) * scale
+    rec = Recorder("rec")
+    target = _make_target(tk, p, timeout, rec)
+    outcomes = {"ok": 0, "fail": 0}
+    kw = dict(
+        timeout=timeout,
+        retry_policy=_policy(kind, p, timeout),
+        on_success=lambda req, resp: outcomes.__setitem__("ok", outcomes["ok"] + 1),
+        on_failure=lambda req, why: outcomes.__setitem__("fail", outcomes["fail"] + 1),
+    )
+    comps: dict = {}
+    if pooled:
+        pool = _pool(p, target, min_conn=0, conn_timeout=max(timeout, p.lat(1)) * 4, idle=p.lat(3))
+        client = PooledClient("client", connection_pool=pool, **kw)
+        comps["pool"] = pool
+    else:
+        client = Client("client", target=target, **kw)
+    entry, fents = front_stage(fk, p, client, 0)
+    arr = p.arrivals(8)
+    sim = make_sim([client, target, rec, *fents], p.end())
+    for i, t in enumerate(arr):
+        # request events are what send_request() builds; they travel through the front stage
+        sim.schedule(ev(t, "request" if i % 3 else "Lookup", entry, request_id=i + 1, payload={"i": i}, attempt=1, client_name="client"))
+    sc = Scenario(sim, {"client": client, **comps, "target": target, "rec": rec}, "clients", True, len(arr), extras={"outcomes": outcomes})
+    sc.notes = f"front={fk} target={('zero', 'slow', 'server')[tk]} timeout={scale}x policy={kind}"
+    return sc
+
+
+def _mk_composed(kind: str, suffix: str):
+    @scenario(f"clients.composed_client_{suffix}", "clients")
+    def builder(seed, params):
+        return _composed_client(seed, params, kind, pooled=False)
+
+    builder.__doc__ = f"Client ({kind} retry policy, attempts from counts) behind a front stage, target by x.v."
+    return builder
+
+
+for _k, _s in (("none", "no_retry"), ("fixed", "fixed"), ("fixed_zero", "fixed_zero_delay"), ("exponential", "exponential"), ("decorrelated", "decorrelated")):
+    _mk_composed(_k, _s)
+
+
+@scenario("clients.composed_pooled_client", "clients")
+def composed_pooled_client(seed, params):
+    """PooledClient + ConnectionPool behind a front stage; retry policy picked by x.v // 30."""
+    p = P(params, seed)
+    kinds = ["fixed", "none", "exponential", "decorrelated", "fixed_zero"]
+    return _composed_client(seed, params, kinds[(int(p.x("v", seed * 7 + 3)) // 30) % len(kinds)], pooled=True)
+
+
+# ----------------------------------------------------------------------
+# degenerate configurations the constructors accept
+
+
+@scenario("clients.degenerate_zero_latency_and_zero_timeouts", "clients")
+def degenerate_zero_latency_and_zero_timeouts(seed, params):
+    """Zero-latency target; Client / PooledClient with timeout 0 and with a positive timeout;
+    retry policies with a single attempt (never retry) and with zero delay; a pool of exactly
+    one connection with zero connection latency."""
+    p = P(params, seed)
+    rec = Recorder("rec")
+    zero = Replier("zero", 0.0, downstream=rec)
+    slow = Replier("slow", p.lat(0), downstream=rec)
+    clients = [
+        Client("c.zero_timeout", target=zero, timeout=0.0, retry_policy=FixedRetry(max_attempts=1, delay=0.0)),
+        Client("c.zero_target", target=zero, timeout=p.lat(1), retry_policy=NoRetry()),
+        Client("c.zero_delay", target=slow, timeout=p.lat(0) * 0.5, retry_policy=FixedRetry(max_attempts=p.count(0, 2, hi=5), delay=0.0)),
+        Client("c.one_attempt", target=slow, timeout=p.lat(0) * 0.5, retry_policy=ExponentialBackoff(max_attempts=1, initial_delay=p.lat(2), max_delay=p.lat(2))),
+        Client("c.jitter_one", target=slow, timeout=0.0, retry_policy=DecorrelatedJitter(max_attempts=1, base_delay=p.lat(2), max_delay=p.lat(2))),
+    ]
+    pool0 = ConnectionPool("pool.zero", target=zero, min_connections=1, max_connections=1, connection_timeout=p.lat(3), idle_timeout=_every(p, p.lat(2)), connection_latency=ConstantLatency(0.0))
+    pool1 = ConnectionPool("pool.slow", target=slow, min_connections=0, max_connections=1, connection_timeout=p.lat(0) * 0.5, idle_timeout=p.lat(2), connection_latency=ConstantLatency(0.0))
+    pooled = [
+        PooledClient("pc.zero", connection_pool=pool0, timeout=0.0, retry_policy=FixedRetry(max_attempts=2, delay=0.0)),
+        PooledClient("pc.slow", connection_pool=pool1, timeout=p.lat(0) * 2, retry_policy=NoRetry()),
+    ]
+    everyone = clients + pooled
+    arr = p.arrivals(4)
+    sim = make_sim([*everyone, zero, slow, rec], p.end())
+    sim.schedule(pool0.warmup())
+    for i, t in enumerate(arr):
+        for c in everyone:  # every client sees the whole arrival pattern
+            sim.schedule(ev(t, "request", c, request_id=i + 1, payload=i, attempt=1))
+    return Scenario(sim, {c.name: c for c in everyone} | {"pool.zero": pool0, "pool.slow": pool1, "rec": rec}, "clients", True, len(arr) * len(everyone))
+
+
+@scenario("clients.degenerate_pool_single_connection", "clients")
+def degenerate_pool_single_connection(seed, params):
+    """max_connections = min_connections = 1, zero hold time (acquire and release in the same
+    instant), a release with nobody waiting, close_all() on an empty pool and acquire after it."""
+    p = P(params, seed)
+    be = Recorder("target")
+    pool = ConnectionPool("pool", target=be, min_connections=1, max_connections=1, connection_timeout=p.lat(1), idle_timeout=_every(p, p.lat(2)), connection_latency=ConstantLatency(p.lat(0)))
+
+    def body(proc, event):
+        i = event.context["metadata"]["worker"]
+        try:
+            conn = yield from pool.acquire()
+        except TimeoutError:
+            proc.log.append("timeout")
+            proc.done += 1
+            return None
+        if i % 2:
+            yield p.hold()
+        proc.done += 1
+        return pool.release(conn)  # i even: released in the instant it was acquired
+
+    def closer(proc, event):
+        pool.close_all()
+        pool.close_all()  # second call: nothing left
+        proc.done += 1
+
+    arr = p.arrivals(6)
+    procs = [Proc(f"w{i}", body) for i in range(len(arr) + 2)]
+    cl = Proc("closer", closer)
+    sim = make_sim([pool, be, cl, *procs], p.end())
+    sim.schedule(pool.warmup())
+    for i, t in enumerate(arr):
+        sim.schedule(ev(t, "start", procs[i], worker=i))
+    t_close = max(arr) + int((p.lat(1) + p.hold()) * 2e9) + 1
+    sim.schedule(ev(t_close, "close", cl))
+    for j in range(2):  # acquire on a closed (empty) pool
+        sim.schedule(ev(t_close + 1 + j, "start", procs[len(arr) + j], worker=len(arr) + j))
+    return Scenario(sim, {"pool": pool}, "clients", True, len(arr) + 3)
